@@ -107,6 +107,14 @@ class C17(Check):
                 if len(fidx) < 2:
                     return ws, []
                 j = rr.randrange(1, len(fidx))  # the raw line goes right before field number j (>= 1 variant precedes it)
+                # `_offset_` expands the set numerically (documented): only where that is cheap, or the run is about cost, not lines
+                from ..worlds import realcanon as _rc
+                try:
+                    node0 = T.Sec(T.Resolver(dict(uni.defs)), d, si).inner
+                    if node0.work() > 2000 or not _rc._cheap_for_sut(node0):
+                        return ws, []
+                except Exception:
+                    return ws, []
                 s0["items"].insert(fidx[j], ["raw", "@assert _offset_.count >= 1", []])
                 sites.append((ev["def"], "%d:%d" % (si, fidx[j] + 1), None, "lazy"))
                 return ws, sites
